@@ -396,6 +396,11 @@ func (w *WEval) eval1(v ssa.Value) *Lay {
 					return &Lay{K: "const", S: constant.StringVal(k.Value)}
 				}
 			}
+			// one of several byte-slice results of a module function
+			if sc := c.Call.StaticCallee(); sc != nil && inScope(pkgPathOf(sc)) && len(sc.Blocks) > 0 && w.depth < 6 &&
+				x.Index < sc.Signature.Results().Len() && isByteSlice(sc.Signature.Results().At(x.Index).Type()) {
+				return w.evalCalleeResult(sc, c.Call.Args, x.Index)
+			}
 		}
 	}
 	if mk, ok := v.(*ssa.MakeSlice); ok {
@@ -830,6 +835,10 @@ func (w *WEval) evalCall(c *ssa.Call) *Lay {
 
 // evalCallee evaluates a module function's []byte result with the call's arguments.
 func (w *WEval) evalCallee(sc *ssa.Function, args []ssa.Value) *Lay {
+	return w.evalCalleeResult(sc, args, 0)
+}
+
+func (w *WEval) evalCalleeResult(sc *ssa.Function, args []ssa.Value, ri int) *Lay {
 	sub := newWEval(w.P, sc)
 	sub.depth = w.depth + 1
 	for i, p := range sc.Params {
@@ -861,7 +870,7 @@ func (w *WEval) evalCallee(sc *ssa.Function, args []ssa.Value) *Lay {
 			}
 		}
 	}
-	return sub.evalFunc()
+	return sub.evalFuncResult(ri)
 }
 
 // constBool decides a boolean value from the parameter valuation.
@@ -958,7 +967,10 @@ func (w *WEval) constBool(v ssa.Value) (bool, bool) {
 }
 
 // evalFunc: layout of the function's (success) result.
-func (w *WEval) evalFunc() *Lay {
+func (w *WEval) evalFunc() *Lay { return w.evalFuncResult(0) }
+
+// evalFuncResult: the layout of result #ri of the function on its success returns.
+func (w *WEval) evalFuncResult(ri int) *Lay {
 	var rets []*ssa.Return
 	for _, b := range w.fn.Blocks {
 		if r, ok := b.Instrs[len(b.Instrs)-1].(*ssa.Return); ok {
@@ -976,7 +988,10 @@ func (w *WEval) evalFunc() *Lay {
 	case 0:
 		return unk("no success return in %s", funcName(w.fn))
 	case 1:
-		return w.eval(rets[0].Results[0])
+		if ri >= len(rets[0].Results) {
+			return unk("result %d of %s does not exist", ri, funcName(w.fn))
+		}
+		return w.eval(rets[0].Results[ri])
 	}
 	// several success returns: a selection on their path conditions from the entry block
 	return w.selectOver(w.fn.Blocks[0], nil, func(d *DPath) *Lay {
@@ -984,8 +999,8 @@ func (w *WEval) evalFunc() *Lay {
 			return nil
 		}
 		for _, r := range rets {
-			if r == d.Ret {
-				return w.eval(r.Results[0])
+			if r == d.Ret && ri < len(r.Results) {
+				return w.eval(r.Results[ri])
 			}
 		}
 		return nil
